@@ -550,7 +550,17 @@ func (vc *VC) pureApp(fc *FuncContract, args []TV) TV {
 			}
 			pres = append(pres, t)
 		}
+		hidden := false
+		for _, o := range vc.opaque {
+			if key == o || strings.HasSuffix(key, "/"+o) {
+				hidden = true
+				vc.assumed["note: pure function "+strings.TrimPrefix(key, modulePath+"/")+" is used as an uninterpreted symbol in "+vc.funcName+" (opaque)"] = true
+			}
+		}
 		for _, e := range fc.Ensures {
+			if hidden {
+				break
+			}
 			t, err := env.Bool(e.Expr)
 			if err != nil {
 				sfail("ensures of pure %s: %v", key, err)
